@@ -1,6 +1,6 @@
 INIT MCInit
 NEXT MCNext
-CONSTANT Shapes = {1, 2, 3, 4, 5, 6, 7, 8, 9, 10, 11, 12, 13, 14, 15, 16, 17, 18, 19, 20, 21, 22, 23, 24}
+CONSTANT Shapes = {1, 2, 3, 4, 5, 6, 7, 8, 9, 10, 11, 12, 13, 14, 15, 16, 17, 18, 19, 20, 21, 22, 23, 24, 25, 26, 27, 28}
 CONSTANT MaxLen = 5
 CONSTANT Ext = 1
 CONSTANT LangLen = 3
